@@ -3,7 +3,7 @@ import ast
 
 from ..core import AnalysisError, dotted, walk_no_nested, FuncTypes
 from ..cfg import CFG, cond_guards
-from ..util import tv_eval, calls_in, local_defs, depends_on, const_val, if_chain, names_in, param_names
+from ..util import is_dynamic_differ_call, builder_names, tv_eval, calls_in, local_defs, depends_on, const_val, if_chain, names_in, param_names
 from ..schema import NbSchema
 from .. import facts
 
@@ -110,7 +110,7 @@ def _run_base(ctx):
         own_path = _own_path(fnode)
         for call in calls_in(fnode, nested=False):
             targets = [t[1] for t in cg.resolve(call.func, fnode) if t[0] == 'func']
-            dyn = isinstance(call.func, ast.Name) and call.func.id in ('diffit', 'inner_differ')
+            dyn = is_dynamic_differ_call(fnode, call)
             accepts = dyn or any('config' in param_names(repo.functions[t]) and t.startswith('nbdime.diffing.') and
                                  ('path' in param_names(repo.functions[t])) for t in targets)
             if not accepts:
@@ -393,7 +393,7 @@ def run(ctx):
         p_ = repo.parent(p_)
     if lookup_if is None:
         raise AnalysisError('diff_dicts: the differ-table lookup is not under a guard')
-    emits = [c for c in calls_in(loop) if isinstance(c.func, ast.Attribute) and dotted(c.func.value) == 'di' and
+    emits = [c for c in calls_in(loop) if isinstance(c.func, ast.Attribute) and dotted(c.func.value) in builder_names(dd) and
              c.func.attr in ('replace', 'patch', 'add', 'remove', 'append')]
     if not emits:
         raise AnalysisError('diff_dicts: no builder calls in the common-key loop')
